@@ -10,7 +10,7 @@
 EXTENDS Builtins
 
 CONSTANT FullB
-VARIABLES a, b, ph
+VARIABLES a, b, ph, za, zb     \* za, zb: the BigZ forms of a, b (state variables: evaluated once)
 
 W  == SIntW
 Lo == -Pow2[W - 1]
@@ -31,18 +31,18 @@ NGcd(x, y) == IF y = 0 THEN x ELSE NGcd(y, x % y)
 RECURSIVE NLen(_)
 NLen(n) == IF n = 0 THEN 0 ELSE 1 + NLen(n \div 2)
 
-A == FromInt(a)
-Bz == FromInt(b)
+A == za
+Bz == zb
 D1(op, x) == Def(op, <<x>>)[1]
 D2(op, x, y) == Def(op, <<x, y>>)[1]
 D3(op, x, y, z) == Def(op, <<x, y, z>>)[1]
 I1(op, x) == ToInt(D1(op, x))
 I2(op, x, y) == ToInt(D2(op, x, y))
 
-Init == a = 0 /\ b = 0 /\ ph = 0
-Next == \/ /\ ph = 0 /\ a' \in RangeA /\ b' = 0 /\ ph' = 1
-        \/ /\ ph = 1 /\ b' \in RangeB /\ a' = a /\ ph' = 2
-Spec == Init /\ [][Next]_<<a, b, ph>>
+Init == a = 0 /\ b = 0 /\ ph = 0 /\ za = Zero /\ zb = Zero
+Next == \/ /\ ph = 0 /\ a' \in RangeA /\ b' = 0 /\ ph' = 1 /\ za' = FromInt(a') /\ zb' = Zero
+        \/ /\ ph = 1 /\ b' \in RangeB /\ a' = a /\ ph' = 2 /\ za' = za /\ zb' = FromInt(b')
+Spec == Init /\ [][Next]_<<a, b, ph, za, zb>>
 
 Consts ==
   /\ ToInt(Def("SIntMin", <<>>)[1]) = Lo /\ ToInt(Def("SIntMax", <<>>)[1]) = Hi
